@@ -768,6 +768,12 @@ func (p *Parser) doHeredocs() {
 			r.Hdoc = p.getWord()
 		}
 		if stop := p.hdocStops[len(p.hdocStops)-1]; stop != nil {
+			if p.r == runeEOF {
+				// The input ended before the here-document was closed;
+				// the quoted body reader does not advance the token,
+				// so make sure the error is reported as incomplete.
+				p.tok = _EOF
+			}
 			p.posErr(r.Pos(), "unclosed here-document %#q", stop)
 		}
 		p.hdocStops = p.hdocStops[:len(p.hdocStops)-1]
@@ -1588,7 +1594,7 @@ zshPrefixLoop:
 		}
 	case colon: // slicing
 		if p.lang.in(LangZsh) && (p.r == '&' || asciiLetter(p.r)) {
-			pos := p.pos
+			pos := posAddCol(p.pos, 1) // the modifier starts after the colon
 		loop:
 			for p.newLit(p.r); ; p.rune() {
 				switch p.r {
